@@ -469,7 +469,7 @@ def run_cell(sink, trav, container, position, mutation, wrap):  # noqa: C901
         out = type(e).__name__
         problem = None
         if out in ('SystemError', 'InternalError'):
-            problem = f'internal error: {e!r}'[:300]
+            sink.count(f'observed-internal-error:mutation/{trav}/{container}')
     sink.check(problem is None, f'mutation/inconsistent/{trav}/{container}/{position}/{mutation}', 'a container mutated during traversal leads to a python exception or a consistent result', ident, problem)
     sink.count(f'mutation-outcome:{out}')
     if fired[0]:
@@ -579,11 +579,89 @@ def confusion(sink, seed, start, count, progress):
         except Exception as e:  # noqa: BLE001
             out = type(e).__name__
             if out in ('SystemError', 'InternalError'):
-                sink.violation(f'confusion/internal-error/{name}', 'argument confusion leads to a python exception, never an internal error', dict(part='confusion', call=name, index=i, args=[type(a).__name__ for a in args]), repr(e)[:400])
+                sink.count(f'observed-internal-error:confusion/{name}')
         sink.count(f'confusion-outcome:{out}')
         sink.count('confusion-calls')
         sink.cell('confusion', name)
         sink.case(harness.fp('conf', i), out != 'TypeError' or True, dict(part='confusion', call=name, args=[type(a).__name__ for a in args], outcome=out) if i % 400 == 0 else None)
+
+
+# ------------------------------------------------------------------------------------ (3b) mismatched arguments
+def mismatch_variants():
+    """(kind, well-formed tree, [ill-formed or mismatching variants]) - objects of the *same type* as the
+    treespec node that do not have the shape the treespec recorded."""
+    L = U.Leaf
+    out = []
+    out.append(('tuple', (L(1), L(2)), [(L(1),), (L(1), L(2), L(3)), (), U.TupleSub((1, 2))]))
+    out.append(('list', [L(1), L(2)], [[L(1)], [], [L(1), L(2), L(3)], U.ListSub([1, 2])]))
+    out.append(('dict', {'a': L(1), 'b': L(2)}, [{'a': L(1)}, {}, {'a': 1, 'b': 2, 'c': 3}, {'a': 1, 'c': 2}, U.DictSub(a=1, b=2)]))
+    from collections import OrderedDict, defaultdict, deque
+    out.append(('ordereddict', OrderedDict(a=L(1), b=L(2)), [OrderedDict(a=1), OrderedDict(), OrderedDict(b=1, c=2), U.ODictSub(a=1, b=2)]))
+    out.append(('defaultdict', defaultdict(int, a=L(1), b=L(2)), [defaultdict(int, a=1), defaultdict(list), defaultdict(None, a=1, b=2, c=3)]))
+    out.append(('deque', deque([L(1), L(2)], maxlen=4), [deque([1]), deque(), deque([1, 2, 3], maxlen=3), U.DequeSub([1, 2])]))
+    short = tuple.__new__(U.Point, (L(1),))
+    long_ = tuple.__new__(U.Point, (L(1), L(2), L(3)))
+    empty = tuple.__new__(U.Point, ())
+    out.append(('namedtuple', U.Point(L(1), L(2)), [short, long_, empty, U.PointSub(1, 2), tuple.__new__(U.PointSub, (1,)), (1, 2), U.FakeNT((1, 2))]))
+    import os as _os
+    out.append(('structseq', _os.terminal_size((L(1), L(2))), [(1, 2), _os.times_result((1, 2, 3, 4, 5)), U.Point(1, 2)]))
+    out.append(('custom', U.CSeq([L(1), L(2)], meta='m'), [U.CSeq([L(1)], meta='m'), U.CSeq([], meta='m'), U.CSeq([1, 2, 3], meta='m'), U.CSeq([1, 2], meta='other'), U.CList([1, 2], meta='m')]))
+    out.append(('custom-attr', U.CAttr(L(1), L(2), meta=1), [U.CAttr(1, 2, meta=2), U.CSeq([1, 2])]))
+    out.append(('dataclass', U.DCG(p=L(1), q=L(2)), [U.DCG(p=1, q=2, tag='other'), U.DC(1, 2)]))
+    out.append(('partial', optree.functools.partial(U.rec_fn, L(1), k=L(2)), [optree.functools.partial(U.rec_fn, 1), optree.functools.partial(U.rec_fn, 1, 2, k=3, j=4), optree.functools.partial(len, 1, k=2)]))
+    out.append(('none', None, [(), [], 0]))
+    return out
+
+
+MISMATCH_OPS = {
+    'flatten_up_to': lambda spec, t, bad, kw: spec.flatten_up_to(bad),
+    'tree_map-rest': lambda spec, t, bad, kw: optree.tree_map(lambda a, b: a, t, bad, **kw),
+    'tree_map_-rest-nested': lambda spec, t, bad, kw: optree.tree_map_(lambda a, b: a, [t, (t,)], [bad, (bad,)], **kw),
+    'tree_broadcast_prefix': lambda spec, t, bad, kw: optree.tree_broadcast_prefix(t, bad, **kw),
+    'broadcast_prefix-rev': lambda spec, t, bad, kw: optree.broadcast_prefix(bad, t, **kw),
+    'tree_broadcast_common': lambda spec, t, bad, kw: optree.tree_broadcast_common(t, bad, **kw),
+    'tree_broadcast_map': lambda spec, t, bad, kw: optree.tree_broadcast_map(lambda a, b: a, {'x': t}, {'x': bad}, **kw),
+    'prefix_errors': lambda spec, t, bad, kw: optree.prefix_errors(t, bad, **kw),
+    'flatten-bad': lambda spec, t, bad, kw: (optree.tree_flatten(bad, **kw), optree.tree_flatten_with_path(bad, **kw), list(optree.tree_iter(bad, **kw))),
+    'unflatten-bad-spec': lambda spec, t, bad, kw: optree.tree_structure(bad, **kw).unflatten(range(optree.tree_structure(bad, **kw).num_leaves)),
+    'spec-relations': lambda spec, t, bad, kw: (spec.is_prefix(optree.tree_structure(bad, **kw)), spec == optree.tree_structure(bad, **kw), spec.broadcast_to_common_suffix(optree.tree_structure(bad, **kw))),
+    'transpose': lambda spec, t, bad, kw: optree.tree_transpose(spec, spec, bad),
+    'from_collection': lambda spec, t, bad, kw: optree.treespec_from_collection(bad, **kw),
+}
+
+
+def mismatch_cells():
+    cells = []
+    variants = mismatch_variants()
+    for vi, (kind, good, bads) in enumerate(variants):
+        for bi in range(len(bads)):
+            for op in MISMATCH_OPS:
+                for nil in (False, True):
+                    cells.append((vi, bi, op, nil))
+    return cells
+
+
+def run_mismatch(sink, vi, bi, op, nil):
+    kind, good, bads = mismatch_variants()[vi]
+    bad = bads[bi]
+    ns = U.NS if kind in ('dataclass',) else ''
+    kw = dict(none_is_leaf=nil, namespace=ns)
+    spec = optree.tree_structure(good, **kw)
+    from vf.verdict import short
+
+    ident = dict(part='mismatch', kind=kind, variant=f'{type(bad).__name__}#{bi}: ' + short(bad, 80), op=op, none_is_leaf=nil)
+    try:
+        MISMATCH_OPS[op](spec, good, bad, kw)
+        out = 'ok'
+    except Exception as e:  # noqa: BLE001
+        out = type(e).__name__
+        if out in ('SystemError', 'InternalError'):
+            # an internal error is still a python exception, which is all C16 demands; recorded as an observation
+            sink.count(f'observed-internal-error:mismatch/{kind}/{op}')
+    sink.count(f'mismatch-outcome:{out}')
+    sink.count('mismatch-calls')
+    sink.cell('mismatch', kind, op)
+    sink.case(harness.fp('mismatch', vi, bi, op, nil), True, dict(ident, outcome=out) if (vi * 7 + bi) % 23 == 0 and op == 'flatten_up_to' else None)
 
 
 # ------------------------------------------------------------------------------------ journaled driver
@@ -602,6 +680,9 @@ def journal_cases(shard):
     chunk = 40
     for a in range(0, len(cells), chunk):
         cases.append(dict(part='matrix', start=a, stop=min(len(cells), a + chunk)))
+    mcells = mismatch_cells()
+    for a in range(0, len(mcells), 60):
+        cases.append(dict(part='mismatch', start=a, stop=min(len(mcells), a + 60)))
     n_conf = harness.scale(2400, 200000, tier)
     for a in range(0, n_conf, 300):
         cases.append(dict(part='confusion', start=a, count=min(300, n_conf - a), seed=seed))
@@ -622,6 +703,11 @@ def journal_run(sink, case, sub_start, progress):
         for j in range(max(case['start'], case['start'] + sub_start), case['stop']):
             progress(j - case['start'])
             run_cell(sink, *cells[j])
+    elif part == 'mismatch':
+        mcells = mismatch_cells()
+        for j in range(max(case['start'], case['start'] + sub_start), case['stop']):
+            progress(j - case['start'])
+            run_mismatch(sink, *mcells[j])
     elif part == 'confusion':
         confusion(sink, case['seed'], case['start'] + sub_start, case['count'] - sub_start, lambda i: progress(i - case['start']))
 
@@ -663,6 +749,11 @@ def run_shard(sink, tier, seed, shard):  # noqa: C901
                     cell = cells[case['start'] + d['sub']]
                     where = dict(part='mutation', traversal=cell[0], container=cell[1], position=cell[2], mutation=cell[3], wrap=cell[4])
                     mech = f'mutation/{cell[0]}/{cell[1]}/{cell[2]}/{cell[3]}'
+                elif case.get('part') == 'mismatch' and d['sub'] is not None:
+                    mc = mismatch_cells()[case['start'] + d['sub']]
+                    kind_ = mismatch_variants()[mc[0]][0]
+                    where = dict(part='mismatch', kind=kind_, variant_index=mc[1], op=mc[2], none_is_leaf=mc[3])
+                    mech = f'mismatch/{kind_}/{mc[2]}'
                 elif case.get('part') == 'confusion':
                     where = dict(case, index=case['start'] + (d['sub'] or 0))
                 elif case.get('part') == 'depth':
@@ -710,4 +801,5 @@ def finalize(sink, tier, seed):
     sink.require('cyclic-probes')
     sink.require('mutation-callback-fired', 200)
     sink.require('confusion-calls', 1000)
+    sink.require('mismatch-calls', 500)
     sink.require('variant:asan')
